@@ -31,6 +31,32 @@ Proof.
   - cbn [fst y_l]. congruence.
 Qed.
 
+(* a lost PUB/SUB delivery does not stay unnoticed: when the writer op really added a change (the top
+   moved) and its delivery to a quiescent live subscription is lost, the position no longer matches
+   and the next position check ends the subscription ... *)
+Lemma lost_delivery_detected : forall fx K vis tlimit y w,
+  quiescent y -> top (apply_w (y_b y) w) = S (top (y_b y)) ->
+  let y1 := step fx K vis tlimit y (EvLose w) in
+  check_position (y_b y1) (y_l y1) = false /\
+  l_sub (y_l (step fx K vis tlimit y1 EvCheck)) = false.
+Proof.
+  intros fx K vis tlimit [b s l c] w [Hl Hc] Ht. cbn [y_b y_l] in *.
+  unfold step, step_out; cbn [y_b y_c y_l y_s fst].
+  unfold check_position in Hc. apply andb_prop in Hc. destruct Hc as [_ Hp]. apply Nat.eqb_eq in Hp.
+  assert (Hf : check_position (apply_w b w) l = false).
+  { unfold check_position. apply andb_false_iff. right. apply Nat.eqb_neq. lia. }
+  split; [exact Hf|]. rewrite Hl, Hf. reflexivity.
+Qed.
+
+(* ... and so does the next publication that IS delivered: an offset gap is insufficient state *)
+Lemma gap_push_insufficient : forall vis l e p,
+  l_sub l = true -> l_epoch l = e -> S (l_pos l) < fst p ->
+  push vis l e p = (mkL false 0 0, None, true).
+Proof.
+  intros vis l e p Hl He Hg. unfold push. rewrite Hl. cbn [negb]. rewrite <- He, Nat.eqb_refl. cbn [negb].
+  apply Nat.ltb_lt in Hg. rewrite Hg. reflexivity.
+Qed.
+
 (* a reply saying "recovered" carries every visible change after the client's position *)
 Lemma recovered_sound : forall K vis tlimit y g0 g1 g2 y' es pubs off ep,
   Know K vis y -> Forall (wok K) g0 -> Forall (wok K) g1 -> Forall (wok K) g2 ->
